@@ -377,7 +377,7 @@ impl World {
             Surf::B(d) => (d.width(), d.height()),
             Surf::Gone => unreachable!(),
         };
-        let buf: Vec<u32> = match kind % 4 {
+        let buf: Vec<u32> = match kind % 6 {
             3 => {
                 let v = match &old {
                     Surf::V(d) => d.get_data().to_vec(),
@@ -399,7 +399,22 @@ impl World {
             },
         };
         self.last_restart_buf = Some(buf.clone());
-        let mut new = match kind % 4 {
+        let mut buf = buf;
+        let mut new = match kind % 6 {
+            4 => {
+                // a recycled vector that is longer than needed: from_vec must cut it down
+                let extra = 1 + (buf.len() % 5);
+                for k in 0..extra {
+                    buf.push(0xdead_0000 | k as u32);
+                }
+                Surf::V(DrawTarget::from_vec(w, h, buf))
+            }
+            5 => {
+                // a recycled vector that is shorter than needed: from_vec extends it with zeros
+                let keep = buf.len() * 2 / 3;
+                buf.truncate(keep);
+                Surf::V(DrawTarget::from_vec(w, h, buf))
+            }
             0 => Surf::V(DrawTarget::from_vec(w, h, buf)),
             1 => Surf::V(DrawTarget::from_backing(w, h, buf)),
             2 => Surf::B(DrawTarget::from_backing(w, h, Wrap(buf))),
